@@ -120,6 +120,12 @@ func paramSubject(fn *ssa.Function, v ssa.Value) int {
 			return paramIndex(fn, x)
 		case *ssa.ChangeInterface:
 			v = x.X
+		case *ssa.MakeInterface:
+			// a pointer parameter handed on as an interface: the interface is usable iff the pointer is non-nil
+			if _, ok := x.X.Type().Underlying().(*types.Pointer); !ok {
+				return -1
+			}
+			v = x.X
 		case *ssa.ChangeType:
 			v = x.X
 		case *ssa.TypeAssert:
@@ -307,6 +313,23 @@ func (p *Prog) safetyInstr(pr *Prover, b *ssa.BasicBlock, ins ssa.Instruction, o
 		return false, "cannot prove the pointer non-nil"
 	}
 	switch x := ins.(type) {
+	case *ssa.MakeClosure:
+		// a method value (`d := p.will.dump`): the receiver is bound now and dereferenced when d is called — K0 must
+		// hold for it here, exactly as at a direct call
+		if cf, ok := x.Fn.(*ssa.Function); ok && strings.HasPrefix(cf.Synthetic, "bound method wrapper") && len(x.Bindings) == 1 {
+			if _, isPtr := x.Bindings[0].Type().Underlying().(*types.Pointer); isPtr {
+				switch x.Bindings[0].(type) {
+				case *ssa.FieldAddr, *ssa.Alloc, *ssa.IndexAddr, *ssa.Global:
+				default:
+					okr := pr.NonNil(x.Bindings[0], b, 0)
+					how := "receiver bound into the method value is non-nil"
+					if !okr {
+						how = "cannot prove the receiver bound into the method value non-nil: calling it dereferences a nil pointer"
+					}
+					ob("nilrecv", ins, okr, how, x.Bindings[0])
+				}
+			}
+		}
 	case *ssa.IndexAddr:
 		var n Lin
 		if pt, ok := x.X.Type().Underlying().(*types.Pointer); ok {
@@ -537,6 +560,24 @@ func (p *Prog) safetyCall(pr *Prover, b *ssa.BasicBlock, ins ssa.Instruction, cc
 		case "bytes.Repeat", "strings.Repeat":
 			l := pr.lin(cc.Args[1])
 			ob("extpre", ins, pr.Prove(b, l), "repeat count "+l.String()+" >= 0")
+		case "(*strings.Builder).Grow", "(*bytes.Buffer).Grow":
+			// Grow panics on a negative count
+			l := pr.lin(cc.Args[1])
+			okp := pr.Prove(b, l)
+			how := "grow count " + l.String() + " >= 0"
+			if !okp {
+				how = "cannot prove the count handed to " + name + " non-negative (it panics otherwise): " + l.String() + " (facts: " + describeFacts(pr, b) + ")"
+			}
+			ob("extpre", ins, okp, how)
+		case "strconv.FormatInt", "strconv.FormatUint":
+			// the base must be 2…36
+			l := pr.lin(cc.Args[1])
+			okp := pr.Prove(b, l.addConst(-2)) && pr.Prove(b, l.scale(-1).addConst(36))
+			how := "base " + l.String() + " within 2…36"
+			if !okp {
+				how = "cannot prove the base handed to " + name + " within 2…36 (it panics otherwise): " + l.String()
+			}
+			ob("extpre", ins, okp, how)
 		case "io.ReadFull", "io.ReadAtLeast":
 			// panics only if the reader does (assumption); nil reader is the caller's error
 		default:
